@@ -13,6 +13,8 @@ import json, os, re, subprocess, sys, time, hashlib, shutil, concurrent.futures 
 
 ROOT = os.path.dirname(os.path.abspath(__file__))
 REPO = os.environ.get("VERIF_REPO", "/repo")
+# development runs against another checkout (VERIF_REPO) keep their scratch files and evidence apart
+ALT = "" if REPO == "/repo" else "-alt"
 GOENV = dict(os.environ, GOFLAGS="-mod=mod", GOPROXY="off", GOSUMDB="off", GOTOOLCHAIN="local")
 GOSMT = os.path.join(ROOT, "bin", "gosmt")
 
@@ -237,7 +239,7 @@ def cmd_run(prop, tier, seed):
     spec = load_spec(prop)
     known = [k for k in load_known() if k["property"] == prop]
     known_open = set(k["id"] for k in known if k.get("status", "open") == "open")
-    workdir = os.path.join(ROOT, "work", "%s-%s" % (prop, tier))
+    workdir = os.path.join(ROOT, "work", "%s-%s%s" % (prop, tier, ALT))
     shutil.rmtree(workdir, ignore_errors=True)
     os.makedirs(workdir)
     os.makedirs(os.path.join(ROOT, "replays"), exist_ok=True)
@@ -246,7 +248,8 @@ def cmd_run(prop, tier, seed):
             os.remove(os.path.join(ROOT, "replays", f))
     jobs = spec["jobs"]
     par = min(len(jobs), 4)
-    workers = max(2, 16 // max(par, 1))
+    # jobs differ a lot in length: oversubscribe 2x so that the longest one is not left with 4 workers
+    workers = max(4, min(16, 32 // max(par, 1)))
     results = []
     with cf.ThreadPoolExecutor(max_workers=par) as ex:
         futs = [ex.submit(run_job, prop, spec, j, tier, workdir, workers, seed, known_open) for j in jobs]
@@ -315,23 +318,40 @@ def cmd_run(prop, tier, seed):
 
     # ---- translator validation: replay path witnesses natively, compare observations ----
     validated, mismatched = 0, []
+
+    def judge(job, q, i, exp_obs, g):
+        """None = not counted, True = validated, str = mismatch text"""
+        if g is None:
+            return "%s witness %d: no native result" % (q["entry"], i)
+        if g["assume_fail"] or g["miss"]:
+            return None
+        tol = next((e.get("obs_tolerance", 0) for e in job["entries"] if e["name"] == q["entry"]), 0)
+        if obs_equal(exp_obs, g["obs"] or [], tol) and not g["panic"] and not g["timeout"]:
+            return True
+        return "%s witness %d: engine %s native %s panic=%s timeout=%s" % (q["entry"], i, exp_obs, g["obs"], g["panic"], g["timeout"])
+
     for _, (job, reqs) in witness_reqs.items():
         clean = [{k: v for k, v in q.items() if k != "_obs"} for q in reqs]
         res, out, _ = native_replay(prop, job, workdir, clean, "wit")
+        retry = []
         for q in reqs:
             got = res.get(q["entry"], [])
             for i, exp_obs in enumerate(q["_obs"]):
-                g = next((x for x in got if x["index"] == i), None)
-                if g is None:
-                    mismatched.append("%s witness %d: no native result" % (q["entry"], i))
-                    continue
-                if g["assume_fail"] or g["miss"]:
-                    continue
-                tol = next((e.get("obs_tolerance", 0) for e in job["entries"] if e["name"] == q["entry"]), 0)
-                if obs_equal(exp_obs, g["obs"] or [], tol) and not g["panic"] and not g["timeout"]:
+                v = judge(job, q, i, exp_obs, next((x for x in got if x["index"] == i), None))
+                if v is True:
                     validated += 1
-                else:
-                    mismatched.append("%s witness %d: engine %s native %s panic=%s" % (q["entry"], i, exp_obs, g["obs"], g["panic"]))
+                elif v is not None:
+                    retry.append((q, i, exp_obs, v))
+        # a witness of a concurrent harness can miss natively on a loaded machine (real scheduler,
+        # real timers): it is replayed once more on its own before it counts as a mismatch
+        for q, i, exp_obs, first in retry:
+            one = [dict(entry=q["entry"], models=[q["models"][i]], timeout_ms=q["timeout_ms"], repeat=1)]
+            res2, _, _ = native_replay(prop, job, workdir, one, "wit2")
+            v = judge(job, q, 0, exp_obs, next(iter(res2.get(q["entry"], [])), None))
+            if v is True:
+                validated += 1
+            else:
+                mismatched.append(first)
         if not res:
             mismatched.append("native witness run produced no results: " + out[-500:])
     for mm in mismatched:
@@ -424,8 +444,9 @@ def cmd_run(prop, tier, seed):
         # engine self-check (run by setup): no evidence file; fails only on a translator mismatch
         print("selfcheck: %d path witnesses replayed natively with identical observations, %d mismatches" % (validated, len(mismatched)))
         return 3 if (mismatched or validated == 0) else 0
-    os.makedirs(os.path.join(ROOT, "evidence"), exist_ok=True)
-    json.dump(ev, open(os.path.join(ROOT, "evidence", prop + ".json"), "w"), indent=1)
+    evdir = os.path.join(ROOT, "evidence") if not ALT else os.path.join(ROOT, "work", "evidence" + ALT)
+    os.makedirs(evdir, exist_ok=True)
+    json.dump(ev, open(os.path.join(evdir, prop + ".json"), "w"), indent=1)
     print("%s %s: %d paths, %d obligations (%d discharged), %d queries, %.1fs solver, %.1fs wall; confirmed=%d known=%d spurious=%d inconclusive=%d validated=%d" % (
         prop, tier, totals["paths"], totals["obligations"], totals["discharged"], totals["queries"], totals["solver_s"], wall,
         len(confirmed), len(knownhits), len(spurious), len(inconclusive), validated))
@@ -452,7 +473,7 @@ def cmd_replay(path):
     rec = json.load(open(path))
     prop = rec["property"]
     job = rec["job"]
-    workdir = os.path.join(ROOT, "work", "replay-" + prop)
+    workdir = os.path.join(ROOT, "work", "replay-" + prop + ALT)
     shutil.rmtree(workdir, ignore_errors=True)
     os.makedirs(workdir)
     reqs = [dict(entry=rec["entry"], models=[rec["model"] or {}], timeout_ms=rec["replay"]["timeout_ms"], repeat=rec["replay"]["repeat"])]
